@@ -8,7 +8,7 @@ from ..absint import Client, Ctx, Interp
 from ..model import Cls, Func, Program, walk_own
 from ..report import Report
 from ..resolve import dotted
-from ..util import calls_in, ext_name, src
+from ..util import assigned_value, calls_in, ext_name, src
 from .filefam import Family, is_call_to, run_typestate
 
 
@@ -68,8 +68,7 @@ class _OpenRecords(Client):
     def event(self, kind, node, state, ctx: Ctx):
         h, p = state
         if kind == "store" and isinstance(node, ast.Attribute) and ctx.scope.is_self(node.value):
-            st = getattr(node, "_parent", None)
-            val = st.value if isinstance(st, ast.Assign) else None
+            val = assigned_value(node)
             if node.attr in self.handles:
                 if self.want_open and isinstance(val, ast.Call):
                     return ((True, p),)
